@@ -20,7 +20,7 @@ fn alphabet(_plan: &str, v: &str, _t: Tier) -> Alphabet {
         sems: if pins { vec![Sem::Default] } else { vec![Sem::Default, Sem::from_name(v)] },
         gc_kinds: vec![false, true],
         bursts: vec![(264, 150, 2)],
-        align_bursts: false, eph_chains: vec![], two_mutators: false,
+        refused_allocs: false, align_bursts: false, eph_chains: vec![], two_mutators: false,
         pins,
         cross_writes: false,
         fields: 1,
